@@ -188,6 +188,7 @@ fn bodies() -> Vec<Vec<u8>> {
 }
 
 fn catch<T>(f: impl FnOnce() -> T) -> Result<T, String> {
+    crate::pool::crumb(|| "C07 codec sweep".to_string());
     std::panic::catch_unwind(std::panic::AssertUnwindSafe(f)).map_err(|p| crate::exec::panic_message(&p))
 }
 
